@@ -543,3 +543,10 @@ pub fn install() {
         x86_64::registers::xcontrol::VERIF_XCR0_EMULATED.store(true, Ordering::SeqCst);
     }
 }
+
+static INSTALLED: std::sync::atomic::AtomicBool = std::sync::atomic::AtomicBool::new(false);
+pub fn install_once() {
+    if !INSTALLED.swap(true, Ordering::SeqCst) {
+        install();
+    }
+}
